@@ -256,6 +256,29 @@ def r119(ctx, fx):
         ctx.fail_closed(rid, "fewer than 3 functions that work on SourceMap.offsets found (%d)" % n_fns)
 
 
+def r1110(ctx, fx):
+    rid = ctx.rule("R11.10", "a listing row shows the address of its own first byte: in to_listing no address is carried from row to row by adding lengths (`x += chunk.len()`) — the "
+                   "rows of a line are cut where the addresses stop being consecutive (a loop body, a file imported twice), so the next row does not start where the "
+                   "previous one ended")
+    tl = fx.fn("mos_core::io::listing::to_listing")
+    if tl is None or not tl.d.get("hir"):
+        ctx.fail_closed(rid, "to_listing not found")
+        return
+    n = 0
+    bad = []
+    for x in lib.hwalk(tl.hir["body"]):
+        if x.get("k") == "assignop":
+            n += 1
+            if x.get("op") in ("Add", "AddAssign") and any(y.get("k") == "mcall" and y.get("name") in ("len", "count") for y in lib.hwalk(x.get("r", {}))):
+                bad.append((lib.hpath(x.get("l")), x.get("ln")))
+    fmts = sum(1 for x in lib.hwalk(tl.hir["body"]) if x.get("k") == "lit" and "04X" in str(x.get("v", "")))
+    ctx.inst(rid, "to_listing|row-address", sample={"compound_assignments": n, "running_addresses": bad, "address_formats": fmts})
+    for name, ln in bad:
+        ctx.finding(rid, "to_listing|running-address|%s" % name, "to_listing advances `%s` by a length from row to row: where the bytes of a source line are not contiguous — the "
+                    "second iteration of a loop, the second import of a file — the rows are labelled with addresses at which other bytes are" % name,
+                    "%s:%s" % (tl.file, ln))
+
+
 def r115(ctx, fx, cg):
     from . import reentry
     rid = ctx.rule("R11.5", "state across nested constructs (A9): the code generator re-enters emit_token for macro / loop / scope / import bodies; no field of the "
@@ -620,6 +643,7 @@ def run(ctx):
     r117(ctx, fx)
     r118(ctx, fx)
     r119(ctx, fx)
+    r1110(ctx, fx)
     r112(ctx, fx)
     r113(ctx, fx, cg)
     r114(ctx, fx)
